@@ -598,11 +598,19 @@ pub fn extract_to_dir<RS: Read + Seek + HasLength>(
                         // todo skip existing files!
                         if let Some(target_dir) = target_file.parent() {
                             std::fs::create_dir_all(target_dir)?;
-                            let mut target_file = std::fs::File::create(target_file)?;
+                            let target_path = target_file;
+                            let mut target_file = std::fs::File::create(&target_path)?;
                             // use a cancelable copy here
                             //std::io::copy(&mut file, &mut target_file)?;
                             // todo or better a cancelable reader? (check what's faster)
-                            cancelable_copy(&mut file, &mut target_file, shall_cancel)?;
+                            if let Err(e) =
+                                cancelable_copy(&mut file, &mut target_file, shall_cancel)
+                            {
+                                // remove the partial file. Otherwise a later request would report it as (already) extracted
+                                drop(target_file);
+                                let _ = std::fs::remove_file(&target_path);
+                                return Err(e);
+                            }
                             extracted.push(new_file_name);
                         }
                     } // ignore symlinks
